@@ -18,19 +18,6 @@ spec fn nxt(d: DFA, q: u32, a: InpId) -> u32 {
 /// the states the minimiser partitions: both ends of every transition, and the dead state
 spec fn all_st(d: DFA, s: u32) -> bool { s == DEAD_STATE_ID || is_end(d, s) }
 
-/// the dead state's number is not used for a real state
-#[verifier::opaque]
-spec fn no_zero(d: DFA) -> bool {
-    (forall|q: u32, a: InpId| #[trigger] used(d, q, a) ==> q != DEAD_STATE_ID && d.transitions@[q][a] != DEAD_STATE_ID)
-    && d.starting_state != DEAD_STATE_ID && !d.accepting_states@.contains(DEAD_STATE_ID)
-}
-
-/// the start state and the accepting states occur in the table
-#[verifier::opaque]
-spec fn states_occur(d: DFA) -> bool {
-    is_end(d, d.starting_state) && (forall|s: u32| d.accepting_states@.contains(s) ==> is_end(d, s))
-}
-
 spec fn blk(p: Seq<ISet<u32>>, k: SetId) -> ISet<u32> { p[k.0 as int] }
 
 /// x and y lie in block k of the partition
